@@ -7,7 +7,9 @@
    run, what it built and filled with this model and with a direct fill of the same tree.  The
    theorems give the homomorphism over chunks of rows. *)
 From Coq Require Import List Bool Permutation.
-From Hgm Require Import NumOps Xq Agg Ops Np Algebra Stream NpFacts.
+From Coq Require Import QArith Qcanon.
+From Coq Require Import ZArith.
+From Hgm Require Import NumOps Xq Agg Ops Np Algebra Stream NpFacts Denote XqFacts ViewPartition.
 Import ListNotations.
 
 (* the histogram of a frame is the row-by-row aggregate of its rows *)
@@ -33,7 +35,44 @@ Theorem C14_any_order : forall (t : agg Xq) (r1 r2 : rtree),
   reduce t r1 = reduce t r2.
 Proof. exact reduce_any. Qed.
 
+(* entries equals the number of rows: a frame fills every row with weight 1 *)
+Definition unit_rows (ds : list (datum Xq)) : list (datum Xq * xq) := map (fun d => (d, XF (Q2Qc 1))) ds.
+
+Lemma counted_unit (ds : list (datum Xq)) : counted (unit_rows ds) = map (fun _ => XF (Q2Qc 1)) ds.
+Proof.
+  unfold counted, unit_rows. induction ds as [|d ds IH]; [reflexivity|]. cbn [map filter snd].
+  change (@pos Xq (XF (Q2Qc 1))) with true. cbn [map snd]. f_equal. exact IH.
+Qed.
+
+Lemma zq_succ z : zq (Z.succ z) = (zq z + 1)%Qc.
+Proof.
+  apply Qc_is_canon. unfold Qcplus. cbn [this Q2Qc]. rewrite Qred_correct, !this_zq.
+  unfold Z.succ. rewrite inject_Z_plus. reflexivity.
+Qed.
+
+Lemma fold_units (ds : list (datum Xq)) : forall a : Qc,
+  fold_left (fun acc w => @nadd Xq acc w) (map (fun _ => XF (Q2Qc 1)) ds) (XF a) =
+  XF (a + zq (Z.of_nat (List.length ds)))%Qc.
+Proof.
+  induction ds as [|d ds IH]; intro a; cbn [map fold_left List.length].
+  - f_equal. change (zq (Z.of_nat 0)) with 0%Qc. ring.
+  - change (@nadd Xq (XF a) (XF (Q2Qc 1))) with (XF (a + 1)%Qc). rewrite IH. f_equal.
+    rewrite Nat2Z.inj_succ, zq_succ. ring.
+Qed.
+
+Theorem C14_entries_is_row_count : forall (k : nodekind Xq) q fx sp tm ct (ds : list (datum Xq)),
+  all_done (Node k q (@nzero Xq) fx sp tm ct) (unit_rows ds) ->
+  entries_of (fst (fillnp (Node k q (@nzero Xq) fx sp tm ct) (unit_rows ds))) =
+  XF (zq (Z.of_nat (List.length ds))).
+Proof.
+  intros k q fx sp tm ct ds H. rewrite fillnp_content.
+  destruct (fills_children k q (unit_rows ds) _ fx sp tm ct H) as (e' & fx' & sp' & E & _ & He & _).
+  rewrite E. cbn [entries_of]. rewrite He, counted_unit. change (@nzero Xq) with (XF 0%Qc).
+  rewrite fold_units. f_equal. ring.
+Qed.
+
 Print Assumptions C14_direct.
+Print Assumptions C14_entries_is_row_count.
 Print Assumptions C14_chunks2.
 Print Assumptions C14_partition.
 Print Assumptions C14_any_order.
